@@ -14,11 +14,18 @@ import (
 type verifEnv interface {
 	More() bool
 	Request() fosite.AccessRequester
+	Response() fosite.AccessResponder
+	Kind() int
+	Grant() string
 }
 
-// verifHistoryJWTBearer: any sequence of JWT-bearer token requests.
-func verifHistoryJWTBearer(ctx context.Context, env verifEnv, c *Handler, jti0 string) {
+// verifHistoryJWTBearer: any sequence of JWT-bearer token requests (validation step and issuing step in any order).
+func verifHistoryJWTBearer(ctx context.Context, env verifEnv, c *Handler, jti0 string, sig0 string) {
 	for env.More() {
-		_ = c.HandleTokenEndpointRequest(ctx, env.Request())
+		if env.Kind() == 0 {
+			_ = c.HandleTokenEndpointRequest(ctx, env.Request())
+		} else {
+			_ = c.PopulateTokenEndpointResponse(ctx, env.Request(), env.Response())
+		}
 	}
 }
